@@ -57,7 +57,8 @@ ASSUMPTIONS = [
 SET_GAMES = ("sm", "o2j")
 
 # Results produced by copy.deepcopy: "Returns a deep copy of itself" (Map/MapSet/TimedList.deepcopy; rate and move_*_to
-# start from it).  For these the python containers held in cells (Quaver keysound lists) are edited too.
+# start from it).  For these the python containers held in cells (Quaver keysound lists) are edited too (finding F31,
+# repaired in /repo by TimedList.__deepcopy__; mutants/revert_F31.diff re-introduces it).
 DEEP_COPY_OPS = {"deepcopy", "list_deepcopy", "rate", "move_start_to", "move_end_to"}
 EDIT_CELL_OBJECTS = True
 
@@ -856,13 +857,6 @@ def check(case, ctx):
                 ctx.fail("shared-cell:" + name, _diff(before, after))
                 before = after
 
-
-def _quaver_keysound_cells_shared(case, failure) -> bool:
-    """proposed_fixes/C14_deepcopy_shares_cell_objects.md: deep copies of Quaver lists share the keysound lists."""
-    return case["chart"]["game"] == "qua" and failure.kind.split(":")[0] == "shared-cell" and "/cells[" in failure.msg
-
-
-KNOWN_PREDICATES = {"quaver_keysound_cells_shared": _quaver_keysound_cells_shared}
 
 SUBS = [
     Sub("ops", check, strategy=case_st, examples={"quick": 320, "thorough": 2500}, shards={"quick": 12, "thorough": 16}),
